@@ -236,7 +236,7 @@ PROPS['C06'] = dict(
     technique='runtime monitoring: differential comparison of executions under injected perturbations (allocator poisoning and size jitter, object reuse histories, thread, process/ASLR, trailing bytes)',
     level='exploration',
     level_text=('Each generated (geometry, options) is encoded by a fresh encoder, then again with fresh heap memory poisoned 0x00 / 0xFF / a seed byte and freed memory poisoned, with allocation-size jitter, on another thread, '
-                'by an Encoder reused after a different geometry (Reset, buffer already holding bytes) and called twice, by an ExpertEncoder called repeatedly and after Reset, and (every 16th case) in a freshly exec\'d '
+                'by an Encoder reused after a different geometry (Reset, buffer already holding bytes) and called twice, by an ExpertEncoder called repeatedly and after Reset, by either front end after an earlier encode with different speed options (final option state equal), and (every 16th case) in a freshly exec\'d '
                 'process with ASLR off and on: all outputs must be byte-identical. The stream is decoded under the same heap perturbations, by a Decoder reused after another stream and after a failed decode, on another '
                 'thread, and with 1-64 random trailing bytes or a second valid stream appended: ordered 128-bit digests must be identical and remaining_size() must equal the number of appended bytes.'),
     level_note='Sampled inputs and a fixed set of perturbations; a nondeterminism that none of them provokes is not detected. Uninitialised reads that do not reach the output are not reported (no memcheck slice in this round).',
@@ -244,7 +244,7 @@ PROPS['C06'] = dict(
     runs=[dict(variant='plain', harness='c06_determinism', cases=dict(quick=24000, thorough=600000))],
     min_nontrivial=8000,
     require_counters={'encode_equal/heap-mode2': 8000, 'encode_equal/heap-mode4': 8000, 'encode_equal/other-thread': 8000, 'encode_equal/reused-encoder-after-reset+appended-buffer': 3000,
-                      'encode_equal/expert-encoder-second-call': 3000, 'decode_equal/reused-decoder': 8000, 'decode_equal/trailing-bytes': 8000, 'process_equal/aslr-on': 500, 'process_equal/aslr-off': 500,
+                      'encode_equal/expert-encoder-second-call': 3000, 'encode_equal/after-speed-history/expert': 2000, 'encode_equal/after-speed-history/basic': 2000, 'decode_equal/reused-decoder': 8000, 'decode_equal/trailing-bytes': 8000, 'process_equal/aslr-on': 500, 'process_equal/aslr-off': 500,
                       'config/edgebreaker': 3000, 'config/kd-tree': 500},
     assumptions=['glibc malloc; operator new/delete replaced in the harness binary'],
 )
